@@ -6,7 +6,8 @@
 (* behaviour started (they never change).  Starting points: the master     *)
 (* keys of NSeeds seeds on both networks, private and neutered; paths: all *)
 (* sequences over PathIdx up to MaxLen.  The successor relation is split   *)
-(* by outcome so that coverage shows failing steps are explored.           *)
+(* by outcome, and Census prints the outcome of the step that led to each  *)
+(* state, so that the harness can require failing steps to be explored.    *)
 (***************************************************************************)
 EXTENDS Bip32, TLC, FiniteSets
 CONSTANTS NSeeds, MaxLen, IdxSel
@@ -61,6 +62,10 @@ PubPrivCommute == (st.rest = p0 /\ x0.prv) =>
                       viaPrv == Derive(mid.v, Drop(p0, j)) IN
                   IF AnyHard(Drop(p0, j)) THEN ~viaPub.ok
                   ELSE viaPub.ok = viaPrv.ok /\ (viaPrv.ok => viaPub.v = NeuterX(viaPrv.v))
+(* census of step outcomes (vacuity guard): how the current state was reached *)
+Census == Consumed > 0 =>
+    PrintT(<<"B", "step", IF st.x.ok THEN "ok"
+                          ELSE IF ~x0.prv /\ Hardened(p0[Consumed]) THEN "hardened-from-public" ELSE "invalid-child">>)
 (* every key the machine produces serialises and deserialises to itself *)
 RoundTrip == st.x.ok => Len(SerXKey(st.x.v)) = 78 /\ DeserXKey(SerXKey(st.x.v)) = st.x
 =============================================================================
